@@ -5,6 +5,22 @@ Michelson typing table allows x every pair of operand values from per-type bound
 instruction class on a real stack and is compared with big-integer reference arithmetic (mc.ref.meval.arith/unary,
 validated against the Octez opcode vectors), including the failure cases (mutez overflow, shifts above 256) and the
 round trips BYTES;INT and BYTES;NAT.
+
+Three shard families:
+* 'base': the full product of the per-type boundary sets (values up to 2^72 quick / 2^128 thorough).
+* 'big': the same instructions over a ladder of magnitudes far beyond every fixed-width, floating-point and decimal-text
+  representation (2^128 .. 2^16384, 10^308 / 10^309 = the double range, 10^4299 / 10^4300 = CPython's default int<->str
+  digit limit, byte strings up to 2 KiB): int and nat are arbitrary precision, so nothing on the way (trace lines,
+  intermediate conversions) may make an instruction fail or round.
+* 'hist': process history.  Every operand tuple of a small alphabet is put, consecutively and in ONE process, through
+  every instruction and every operand type combination that admits it (the same number as int, nat, mutez and timestamp;
+  the same bytes under INT and NAT; the same pair under ADD, SUB, MUL ...), in alternating type order, and the whole sweep
+  is then repeated backwards.  Every call is judged on its own against the reference, so any state the code under test
+  carries from one call to a later one (memo, cache, mutated class attribute) shows as a wrong result of the later call.
+
+The harness never sends a number through str()/int() text when it is longer than 600 digits (operands are then built with
+the type's from_value, the constructor the instructions themselves use for their results) and prints numbers with
+mc.ref.micheline.dec_of / hex, so it does not depend on the interpreter's int<->str digit limit.
 """
 from __future__ import annotations
 
@@ -13,21 +29,60 @@ from mc import impl as M
 from mc.engine.report import Result
 from mc.ref import meval as E
 from mc.ref import mtypes as T
+from mc.ref.micheline import dec_of
 
 ID = 'C16'
 LEVEL = 'exploration'
 LEVEL_TEXT = ('exhaustive over the full product of per-type boundary sets for every instruction x admissible operand types: decides the '
-              'arithmetic / conversion / failure logic at every byte boundary, sign and limit named in the statement; says nothing about values between the boundaries')
+              'arithmetic / conversion / failure logic at every byte boundary, sign and limit named in the statement, at magnitudes from 0 '
+              'to 2^16384 (past the double range and the decimal-text limit of the runtime), and under every two-call history over a small '
+              'operand alphabet (same operands under another type or instruction earlier in the process); says nothing about values '
+              'between the boundaries or about histories that need other operands')
 RULE = ('instruction x admissible operand types x ALL value combinations from per-type boundary sets (signs, zero, 2^(8k)-1, 2^(8k), '
-        '2^(8k-1), the mutez limit 2^63, shift counts 255/256/257); non-trivial = distinct (instr, types, operands) whose reference '
-        'result is not a plain success on small numbers (|operands| > 255, a failure, or an option result)')
-BOUND = {'quick': 'boundary sets of 20-48 values per type, full product', 'thorough': 'boundary sets of ~110 values per type (k<=16), full product'}
+        '2^(8k-1), the mutez limit 2^63, shift counts 255/256/257); big shards: the same product over a magnitude ladder (2^k-1, 2^k and '
+        '10^d-1, 10^d around the word, double and decimal-text limits, long byte strings); hist shards: for every operand tuple of a '
+        'small alphabet ALL admissible (instruction, operand types) calls consecutively in one process, type order alternating from '
+        'tuple to tuple, then the whole sweep backwards, each call judged; non-trivial = distinct (instr, types, operands) whose '
+        'reference result is not a plain success on small numbers (|operands| > 255, a failure, an option result, bytes)')
+BOUND = {'quick': 'base: boundary sets of 20-48 values per type (<= 2^72), full product; big: 45 ints / 23 nats from 2^128 to 2^16384 and '
+                  '10^308..10^4300, 13 byte strings up to 2048 bytes, full product; hist: 22 ints + 9 byte strings + 2 bools, all '
+                  'tuples x all admissible calls, forward and backward',
+         'thorough': 'base: boundary sets of ~110 values per type (k<=16), full product; big: 191 ints / 96 nats from 2^96 to 2^32768 '
+                     'and 10^19..10^4301, 24 byte strings up to 4096 bytes, full product; hist: 57 ints + 9 byte strings + 2 bools, '
+                     'all tuples x all admissible calls, forward and backward'}
 ASSUMPTIONS = ['bytes are big-endian bit strings (Octez Script_bytes): AND truncates to the shorter operand, OR/XOR left-pad the shorter, '
-               'LSL grows the result by ceil(n/8) bytes, LSR drops floor(n/8) bytes, shifts above 64000 fail; no Octez vector for these is shipped in the repo']
+               'LSL grows the result by ceil(n/8) bytes, LSR drops floor(n/8) bytes, shifts above 64000 fail; no Octez vector for these is shipped in the repo',
+               'operands longer than 600 decimal digits are placed on the stack with <type>.from_value (no Micheline text), the constructor '
+               'the instructions use for their own results']
 
 INT, NAT, BYTES, BOOL, MUTEZ, TS = E.INT, E.NAT, E.BYTES, E.BOOL, E.MUTEZ, E.TS
+UN_PRIMS = ('ABS', 'NEG', 'ISNAT', 'INT', 'NAT', 'BYTES', 'NOT')
+ROUND_TRIPS = (('BYTES;INT', INT), ('BYTES;NAT', NAT))
+BIG_TYPES = (INT, NAT, TS, BYTES)
+TEXT_SAFE = 10 ** 600          # below the smallest digit limit the interpreter can be set to (640)
+HIST_SHARDS = {'quick': 4, 'thorough': 16}
+SIZE_TEXT = {'word': '', 'double': 'from 2^64 to 2^1024', 'text': 'from 2^1024 to 4300 decimal digits', 'beyond': 'of more than 4300 decimal digits'}
+_W64, _W1024, _TEXT = 2**64, 2**1024, 10**4300
 
 
+# ---------------------------------------------------------------- printing without str(int)
+def show(v) -> str:
+    if isinstance(v, bool) or v is None or isinstance(v, str):
+        return repr(v)
+    if isinstance(v, int):
+        if abs(v) < 10 ** 40:
+            return dec_of(v)
+        h = f'{abs(v):x}'
+        return f"{'-' if v < 0 else ''}0x{h[:10]}..{h[-10:]}({abs(v).bit_length()} bits)"
+    if isinstance(v, bytes):
+        h = v.hex()
+        return '0x' + (h if len(h) <= 48 else f'{h[:12]}..{h[-12:]}({len(v)} bytes)')
+    if isinstance(v, (tuple, list)):
+        return '(' + ', '.join(show(x) for x in v) + ')'
+    return repr(v)
+
+
+# ---------------------------------------------------------------- alphabets
 def ints(kmax):
     s = {0, 1, -1, 2, -2, 3, 7, -7, 10, 100, 255, 256, 257, -255, -256, -257, 2**63 - 1, 2**63, -2**63, 2**64, 2**64 + 1, -(2**64)}
     for k in range(1, kmax + 1):
@@ -46,22 +101,83 @@ def domains(tier):
     mv = [x for x in nv if x < 2**63]
     bv = [b'', b'\x00', b'\x01', b'\x7f', b'\x80', b'\xff', b'\x00\x80', b'\x00\x7f', b'\xff\x7f', b'\xff\x80', b'\x80\x00', b'\x01\x00',
           b'\x00\x00', b'\xff\xff', b'\x00\xff\xff', b'\x7f' + b'\xff' * 8, b'\x80' + b'\x00' * 8, b'\x01' + b'\x00' * 32]
-    return {INT: iv, NAT: nv, MUTEZ: mv, TS: iv if tier == 'thorough' else iv[:40], BYTES: bv, BOOL: [False, True]}
+    return {INT: iv, NAT: nv, MUTEZ: mv, TS: iv if tier == 'thorough' else iv[:40], BYTES: bv, BOOL: [False, True],
+            'shift': [0, 1, 7, 8, 9, 63, 64, 255, 256, 257, 1000, 2**20]}
+
+
+def big_domains(tier):
+    """Magnitudes beyond every fixed-width / floating / text representation: 2^k around the 128-bit word, the double range
+    (2^1024, 10^308 < max double < 10^309) and the default decimal-text limit of the runtime (10^4299 has 4300 digits,
+    2^14284 < 10^4300 < 2^14285); neighbours -1 (all ones) and, thorough, +1."""
+    if tier == 'quick':
+        ks, ds, around = (128, 512, 1024, 4096, 14285, 16384), (308, 309, 4299, 4300), (-1, 0)
+        lens = (16, 128, 1786, 2048)
+    else:
+        ks = (96, 128, 192, 256, 384, 512, 768, 1023, 1024, 1025, 1536, 2048, 3072, 4096, 8192, 14284, 14285, 16384, 32768)
+        ds, around = (19, 38, 39, 77, 78, 308, 309, 640, 641, 4299, 4300, 4301), (-1, 0, 1)
+        lens = (16, 32, 128, 1024, 1786, 2048, 4096)
+    s = {0, 1, -1, 255, -256}
+    for base in [2**k for k in ks] + [10**d for d in ds]:
+        for d in around:
+            s.add(base + d)
+            s.add(-(base + d))
+    iv = sorted(s, key=lambda x: (abs(x), x < 0))
+    nv = [x for x in iv if x >= 0]
+    bv = [b'', b'\x80', b'\x00\x80']
+    for n in lens:
+        bv += [b'\x80' + b'\x00' * (n - 1), b'\x7f' + b'\xff' * (n - 1), b'\xff' * n][:3 if tier == 'thorough' or n in (16, 1786) else 2]
+    return {INT: iv, NAT: nv, TS: iv, BYTES: bv, MUTEZ: [0, 1, 10**6, 2**62, 2**63 - 1], BOOL: [False, True],
+            'shift': [0, 1, 8, 255, 256, 257, 1000, 64000, 64001, 2**128]}
+
+
+def hist_universe(tier):
+    iv = [0, 1, -1, 2, 127, 128, -128, -129, 255, 256, 257, -256, 32767, 32768, 65535, -32768, 2**63 - 1, 2**63, -(2**63), 2**64 - 1, 2**64, -(2**64)]
+    if tier != 'quick':
+        s = set(iv)
+        for k in range(1, 9):
+            for v in (2**(8 * k) - 1, 2**(8 * k), 2**(8 * k - 1)):
+                s.add(v)
+                s.add(-v)
+        iv = sorted(s, key=lambda x: (abs(x), x < 0))
+    bv = [b'', b'\x00', b'\x01', b'\x7f', b'\x80', b'\xff', b'\x00\x80', b'\x80\x00', b'\xff\xff']
+    return iv + bv + [False, True]
+
+
+def fits(v, t) -> bool:
+    if t == BOOL:
+        return isinstance(v, bool)
+    if t == BYTES:
+        return isinstance(v, bytes)
+    if not isinstance(v, int) or isinstance(v, bool):
+        return False
+    return v >= 0 if t == NAT else 0 <= v < 2**63 if t == MUTEZ else t in (INT, TS)
+
+
+def calls_for(a, b):
+    """Every well-typed call of the statement's instructions on the operand tuple: (kind, prim, ta, tb)."""
+    if b is None:
+        out = [('un', p, t, None) for p in UN_PRIMS for t in E.UNARY[p] if fits(a, t)]
+        return out + [('rt', p, t, None) for p, t in ROUND_TRIPS if fits(a, t)]
+    return [('bin', p, ta, tb) for p, table in E.ARITH.items() for (ta, tb) in table if fits(a, ta) and fits(b, tb)]
 
 
 def shards(tier, seed):
-    out = []
-    for p, table in E.ARITH.items():
-        for (ta, tb) in table:
-            out.append(('bin', p, ta, tb))
-    for p in ('ABS', 'NEG', 'ISNAT', 'INT', 'NAT', 'BYTES', 'NOT'):
-        for t in E.UNARY[p]:
-            out.append(('un', p, t, None))
-    out.append(('rt', 'BYTES;INT', INT, None))
-    out.append(('rt', 'BYTES;NAT', NAT, None))
+    out = [('hist', i, HIST_SHARDS[tier]) for i in range(HIST_SHARDS[tier])]   # first: each sweep starts in a fresh process
+    for fam in ('base', 'big'):
+        for p, table in E.ARITH.items():
+            for (ta, tb) in table:
+                if fam == 'base' or ta in BIG_TYPES or tb in BIG_TYPES:
+                    out.append((fam, 'bin', p, ta, tb))
+        for p in UN_PRIMS:
+            for t in E.UNARY[p]:
+                if fam == 'base' or t in BIG_TYPES:
+                    out.append((fam, 'un', p, t, None))
+        for p, t in ROUND_TRIPS:
+            out.append((fam, 'rt', p, t, None))
     return out
 
 
+# ---------------------------------------------------------------- one call: reference, implementation, verdict
 def nontrivial(vals, ref):
     if ref[0] != 'ok':
         return True
@@ -83,10 +199,21 @@ def ref_eval(kind, p, ta, a, tb, b):
         return ('fail', str(e))
 
 
+def mk_operand(t, v):
+    if t in (INT, NAT, TS) and abs(v) >= TEXT_SAFE:
+        return A.mk_type(t).from_value(v)      # no decimal text on the way: see module docstring
+    return A.to_impl(t, v)
+
+
 def impl_eval(kind, p, ta, a, tb, b, ctx):
+    from pytezos.michelson.stack import MichelsonStack
     code = [M.P(x) for x in p.split(';')]
     slots = [(ta, a)] + ([(tb, b)] if kind == 'bin' else [])
-    out, stack = M.run_impl(code, slots, ctx)
+    try:
+        stack = MichelsonStack([mk_operand(t, v) for t, v in slots])
+    except Exception as e:
+        return ('crash', 'operand not constructible', f'{type(e).__name__}: {str(e)[:200]}')
+    out = M.run_on_stack(code, stack, ctx or M.make_context())
     if out[0] != 'ok':
         return out
     if len(stack.items) != 1:
@@ -101,18 +228,20 @@ def check(kind, p, ta, a, tb, b, ctx=None):
     ref = ref_eval(kind, p, ta, a, tb, b)
     got = impl_eval(kind, p, ta, a, tb, b, ctx)
     tys = T.t_str(ta) + ((' ' + T.t_str(tb)) if tb else '')
+    on = f'{p} on {show(a)} {show(b)}'
     if ref[0] == 'ok':
         if got[0] == 'ok':
             if got[1] == ref[1]:
                 return ref, got, None
             what = 'wrong type' if got[1][0] != ref[1][0] else 'wrong value'
-            return ref, got, (f'{p} {tys}: {what}', f'{p} on {a!r} {b!r}: got {got[1]}, expected {ref[1]}')
+            return ref, got, (f'{p} {tys}: {what}', f'{on}: got {show(got[1])}, expected {show(ref[1])}')
         cls = _fail_class(ref, got)
-        return ref, got, (f'{p} {tys}: fails ({cls})', f'{p} on {a!r} {b!r}: {got}, expected {ref[1]}')
+        size = SIZE_TEXT[_magnitude([a, b], ref, False)]     # a failure that depends on the magnitude of the numbers is a different failure
+        return ref, got, (f'{p} {tys}: fails ({cls})' + (f' on numbers {size}' if size else ''), f'{on}: {show(got)}, expected {show(ref[1])}')
     # reference fails at run time: the implementation must fail too (not with a FAILWITH value, not by crashing outside the interpreter)
     if got[0] == 'error':
         return ref, got, None
-    return ref, got, (f'{p} {tys}: does not fail on {ref[1]}', f'{p} on {a!r} {b!r}: {got}')
+    return ref, got, (f'{p} {tys}: does not fail on {ref[1]}', f'{on}: {show(got)}')
 
 
 def _fail_class(ref, got):
@@ -126,40 +255,128 @@ def _fail_class(ref, got):
     return got[0]
 
 
+def _magnitude(vals, ref, with_bytes=True):
+    """Size class of the largest number involved (operands and reference result; with_bytes: a byte string counts as the
+    largest number of its length): for the outcome statistics and to keep magnitude-dependent failures apart."""
+    m = 0
+    todo = list(vals) + ([ref[1][1]] if ref[0] == 'ok' else [])
+    while todo:
+        v = todo.pop()
+        if isinstance(v, bool) or v is None or isinstance(v, str):
+            continue
+        if isinstance(v, int):
+            m = max(m, abs(v))
+        elif isinstance(v, bytes):
+            m = max(m, 256 ** len(v) - 1) if with_bytes else m
+        elif isinstance(v, (tuple, list)):
+            todo.extend(v)
+    return 'word' if m < _W64 else 'double' if m < _W1024 else 'text' if m < _TEXT else 'beyond'
+
+
+def _ref_class(ref):
+    if ref[0] != 'ok':
+        return 'fail'
+    v = ref[1][1]
+    if v is None:
+        return 'None'
+    return 'Some' if ref[1][0][0] == 'option' else 'value'
+
+
+def _case(kind, p, ta, a, tb, b, before=None):
+    c = {'kind': kind, 'p': p, 'ta': list(ta), 'a': a, 'tb': list(tb) if tb else None, 'b': b}
+    if before is not None:
+        c['before'] = [[k, q, list(x), list(y) if y else None] for k, q, x, y in before]
+    return c
+
+
+def _judge(r, fam, kind, p, ta, a, tb, b, ctx, before=None):
+    ref, got, v = check(kind, p, ta, a, tb, b, ctx)
+    r.ev()
+    if nontrivial([a, b], ref):
+        r.nt((p, ta, tb, a, b))
+    r.out(f'{fam}:{_ref_class(ref)}/{got[0]}:{_magnitude([a, b], ref)}')
+    if v:
+        detail = v[1]
+        if before:
+            detail += f' [call {len(before) + 1} on these operands in this process; earlier: ' + ', '.join(
+                f'{q} {T.t_str(x)}' + (f' {T.t_str(y)}' if y else '') for _, q, x, y in before[-6:]) + ']'
+        r.viol(v[0], _case(kind, p, ta, a, tb, b, before), detail)
+
+
+# ---------------------------------------------------------------- shards
 def run_shard(spec, tier):
-    kind, p, ta, tb = spec
-    D = domains(tier)
+    if spec[0] == 'hist':
+        return run_hist(spec, tier)
+    fam, kind, p, ta, tb = spec
+    D = domains(tier) if fam == 'base' else big_domains(tier)
     r = Result()
     ctx = M.make_context()
     bs = D[tb] if kind == 'bin' else [None]
     if kind == 'bin' and p in ('LSL', 'LSR'):
-        bs = [0, 1, 7, 8, 9, 63, 64, 255, 256, 257, 1000, 2**20]
+        bs = D['shift']
     last = None
     for a in D[ta]:
         for b in bs:
-            ref, got, v = check(kind, p, ta, a, tb, b, ctx)
-            r.ev()
-            case = {'kind': kind, 'p': p, 'ta': list(ta), 'a': a, 'tb': list(tb) if tb else None, 'b': b}
-            if nontrivial([a, b], ref):
-                r.nt((p, ta, tb, a, b))
-            r.out(f'{ref[0]}:{"None" if ref[0] == "ok" and ref[1][1] is None else ref[0]}/{got[0]}')
-            if v:
-                r.viol(v[0], case, v[1])
-            if last is None:
-                r.sample(case)
-            last = case
-    r.sample(last)
+            _judge(r, fam, kind, p, ta, a, tb, b, ctx)
+            last = _case(kind, p, ta, a, tb, b)
+            if r.evaluations == 1:
+                r.sample(last)
+    if last is not None:
+        r.sample(last)
     return r
 
 
+def hist_groups(spec, tier):
+    """[(a, b | None, calls)]: the operand tuples of this shard, value-major, with all their admissible calls; the order of
+    the calls (hence of the operand types: int before nat / nat before int) alternates from one tuple to the next."""
+    _, i, n = spec
+    U = hist_universe(tier)
+    groups = []
+    for a in U[i::n]:
+        for b in [None] + U:
+            calls = calls_for(a, b)
+            if calls:
+                groups.append((a, b, calls if len(groups) % 2 == 0 else calls[::-1]))
+    return groups
+
+
+def run_hist(spec, tier):
+    r = Result()
+    ctx = M.make_context()
+    groups = hist_groups(spec, tier)
+    last = None
+    for sweep in (groups, [(a, b, calls[::-1]) for a, b, calls in reversed(groups)]):
+        for a, b, calls in sweep:
+            for j, (kind, p, ta, tb) in enumerate(calls):
+                _judge(r, 'hist', kind, p, ta, a, tb, b, ctx, before=calls[:j])
+                if last is None:
+                    r.sample(_case(kind, p, ta, a, tb, b, calls[:j]))
+                last = (kind, p, ta, a, tb, b, calls[:j])
+    if last is not None:
+        r.sample(_case(*last))
+    return r
+
+
+# ---------------------------------------------------------------- replay / observe
+def _unpack(case):
+    return case['kind'], case['p'], tuple(case['ta']), case['a'], (tuple(case['tb']) if case.get('tb') else None), case['b']
+
+
 def replay(case):
-    ta = tuple(case['ta'])
-    tb = tuple(case['tb']) if case.get('tb') else None
-    _, _, v = check(case['kind'], case['p'], ta, case['a'], tb, case['b'])
-    return [v] if v else []
+    """Re-runs the earlier calls on the same operands first (history recorded by the hist shards), judging every call."""
+    kind, p, ta, a, tb, b = _unpack(case)
+    ctx = M.make_context()
+    out = []
+    for k, q, x, y in case.get('before') or []:
+        _, _, v = check(k, q, tuple(x), a, tuple(y) if y else None, b, ctx)
+        if v:
+            out.append(v)
+    _, _, v = check(kind, p, ta, a, tb, b, ctx)
+    if v:
+        out.append(v)
+    return out
 
 
 def observe(case):
-    ta = tuple(case['ta'])
-    tb = tuple(case['tb']) if case.get('tb') else None
-    return impl_eval(case['kind'], case['p'], ta, case['a'], tb, case['b'], None)
+    kind, p, ta, a, tb, b = _unpack(case)
+    return impl_eval(kind, p, ta, a, tb, b, None)
